@@ -101,6 +101,8 @@ const (
 	actRefusedCall   // a's CALL refused after routing started (disclose_me disallowed)
 	actRefusedCall2  // progressive call to a callee without the feature
 	actTestament
+	actUnregisterWhileServing // b calls a.proc (pending), then a unregisters a.proc
+	actSubscribeUnsubscribe
 	actCount
 )
 
@@ -153,6 +155,29 @@ func vC05(nActs int, acts []int, ways int) {
 			a.send(&wamp.Call{Request: 16, Procedure: "b.proc", Options: wamp.Dict{"progress": true}})
 		case actTestament:
 			a.send(&wamp.Call{Request: 17, Procedure: wamp.MetaProcSessionAddTestament, Arguments: wamp.List{"will.topic", wamp.List{"bye"}, wamp.Dict{}}})
+		case actUnregisterWhileServing:
+			if did[actRegister] || did[actServePending] {
+				continue
+			}
+			did[actRegister], did[actServePending] = true, true
+			a.send(&wamp.Register{Request: 12, Procedure: "a.proc"})
+			rg, _ := vFindMsg[*wamp.Registered](a.drain())
+			vAssert("a-registered", rg != nil)
+			b.send(&wamp.Call{Request: 14, Procedure: "a.proc"})
+			a.drain()
+			if rg != nil {
+				a.send(&wamp.Unregister{Request: 18, Registration: rg.Registration})
+			}
+			vCover("unregistered-while-serving")
+		case actSubscribeUnsubscribe:
+			if did[actSubscribe] {
+				continue
+			}
+			a.send(&wamp.Subscribe{Request: 19, Topic: "tmp.topic"})
+			sd, _ := vFindMsg[*wamp.Subscribed](a.drain())
+			if sd != nil {
+				a.send(&wamp.Unsubscribe{Request: 20, Subscription: sd.Subscription})
+			}
 		}
 		a.drain()
 	}
@@ -226,7 +251,7 @@ func vC05(nActs int, acts []int, ways int) {
 	vCover("cleanup-checked")
 }
 
-var vC05Acts = []int{actSubscribe, actRegister, actCallPending, actServePending, actRefusedCall, actRefusedCall2, actTestament}
+var vC05Acts = []int{actSubscribe, actRegister, actCallPending, actServePending, actRefusedCall, actRefusedCall2, actTestament, actUnregisterWhileServing, actSubscribeUnsubscribe}
 
 func Harness_C05_Leave_1() { vC05(1, vC05Acts, 4) }
 func Harness_C05_Leave_2() { vC05(2, vC05Acts, 4) }
